@@ -6,6 +6,7 @@ pub fn run(args: &[String]) {
         Some("settings") => settings_grid(args.get(1).map(|s| s.as_str()).unwrap_or("quick")),
         Some("alnum") => alnum_ranges(),
         Some("identend") => ident_end(&args[1]),
+        Some("spacinggrid") => spacing_grid(args.get(1).map(|s| s.as_str()).unwrap_or("quick")),
         _ => {
             eprintln!("unknown unit");
             std::process::exit(2);
@@ -84,5 +85,75 @@ fn ident_end(file: &str) {
         let g = pasfmt_core::defaults::lexer::verif_ident_end_generic(&s, off);
         let a = pasfmt_core::defaults::lexer::verif_ident_end_avx2(&s, off);
         writeln!(w, "{} {} {} {}", off, p[1], g, a.map(|x| x.to_string()).unwrap_or("-".into())).unwrap();
+    }
+}
+
+
+/// TokenSpacing on every vector [a, b, c, Eof] (and [a, {comment}, b, c, Eof] for operator b) of token
+/// TYPES, a from a representative set (plus "no previous token"), b and c from ALL token types, with
+/// 0..2 original spaces in front of b and c: prints `SG <k> <a|-1> <b> <digits>` where digits are, for
+/// each c and each (o1, o2), the resulting spaces_before of b and of c.
+fn spacing_grid(tier: &str) {
+    use pasfmt_core::lang::*;
+    use pasfmt_core::prelude::*;
+    use std::io::Write;
+    let all = crate::gen_types::all_token_types();
+    let is_op = |t: &TokenType| matches!(t, TokenType::Op(_));
+    let mut reps: Vec<i64> = vec![-1];
+    for (i, t) in all.iter().enumerate() {
+        let name = format!("{:?}", t);
+        let pick = if tier == "thorough" {
+            is_op(t)
+                || matches!(name.as_str(), "Identifier" | "Keyword(And)" | "Keyword(Begin)" | "Keyword(End)" | "Keyword(Not)" | "Keyword(Then)" | "Keyword(Of)" | "Keyword(In(Op))"
+                    | "TextLiteral(SingleLine)" | "TextLiteral(Unterminated)" | "NumberLiteral(Decimal)" | "Comment(InlineBlock)" | "Comment(IndividualLine)" | "Comment(InlineLine)"
+                    | "CompilerDirective" | "ConditionalDirective(If)" | "ConditionalDirective(Endif)" | "Unknown" | "Keyword(Class)" | "Keyword(Const(Section))")
+        } else {
+            matches!(name.as_str(), "Identifier" | "Op(RParen)" | "Op(LParen)" | "Op(Assign)" | "Op(Comma)" | "Keyword(And)" | "NumberLiteral(Decimal)" | "Comment(InlineBlock)" | "Op(Caret(Deref))" | "Op(Equal(Comp))")
+        };
+        if pick {
+            reps.push(i as i64);
+        }
+    }
+    let combos: &[(usize, usize)] = if tier == "thorough" {
+        &[(0, 0), (0, 1), (0, 2), (1, 0), (1, 1), (1, 2), (2, 0), (2, 1), (2, 2)]
+    } else {
+        &[(0, 0), (1, 1), (2, 0), (0, 2)]
+    };
+    let ws = ["x", " x", "  x"];
+    let out = std::io::stdout();
+    let mut w = std::io::BufWriter::with_capacity(1 << 20, out.lock());
+    let comment_ty = TokenType::Comment(CommentKind::InlineBlock);
+    let rule = TokenSpacing {};
+    for k in 0..2 {
+        for &a in &reps {
+            for (bi, b) in all.iter().enumerate() {
+                if k == 1 && (!is_op(b) || a < 0) {
+                    continue;
+                }
+                let mut digits = String::with_capacity(all.len() * combos.len() * 2);
+                for c in all.iter() {
+                    for &(o1, o2) in combos {
+                        let mut toks: Vec<Token> = Vec::with_capacity(5);
+                        if a >= 0 {
+                            toks.push(Token::new_ref("x", 0, all[a as usize]));
+                        }
+                        if k == 1 {
+                            toks.push(Token::new_ref(" x", 1, comment_ty));
+                        }
+                        let ib = toks.len();
+                        toks.push(Token::new_ref(ws[o1], o1 as u32, *b));
+                        toks.push(Token::new_ref(ws[o2], o2 as u32, *c));
+                        toks.push(Token::new_ref("", 0, TokenType::Eof));
+                        let mut ft = FormattedTokens::new_from_tokens(&mut toks, &TokenMarker::default());
+                        rule.format(&mut ft, &[]);
+                        let sb = ft.get_formatting_data(ib).unwrap().spaces_before.min(9);
+                        let sc = ft.get_formatting_data(ib + 1).unwrap().spaces_before.min(9);
+                        digits.push((b'0' + sb as u8) as char);
+                        digits.push((b'0' + sc as u8) as char);
+                    }
+                }
+                writeln!(w, "SG {} {} {} {}", k, a, bi, digits).unwrap();
+            }
+        }
     }
 }
